@@ -16,6 +16,14 @@ def prog_to_tla(prog):
     return "<< " + ",\n     ".join(items) + " >>"
 
 
+def raw_extract(chk):
+    drv = chk.drv()
+    p = core.sh([drv, "extract", core.REPO], check=False)
+    if p.returncode != 0:
+        raise core.Infra("extractor refused the sources (outside its grammar):\n" + p.stdout[-2000:])
+    return json.loads(p.stdout.strip().splitlines()[-1])
+
+
 def write_extracted(chk):
     drv = chk.drv()
     p = core.sh([drv, "extract", core.REPO], check=False)
